@@ -1585,6 +1585,21 @@ class Interp:
                 if head[2]:
                     b['T'] = head[2][0]
                 return cands[0], self.bind_fn_generics(cands[0], b, gargs, ctx)
+            if not cands and tname == 'Visitor':
+                # serde::de::Visitor's documented defaults on a fn-local visitor: owned / borrowed forms forward to the slice form
+                fwd_ = {'visit_string': 'visit_str', 'visit_borrowed_str': 'visit_str', 'visit_byte_buf': 'visit_bytes', 'visit_borrowed_bytes': 'visit_bytes'}
+                if method in fwd_:
+                    tgt_ = self.dispatch_target(self_ty, trait, fwd_[method], gargs, args, st, ctx)
+                    if tgt_ is not None and not callable(tgt_):
+                        name_, tenv_ = tgt_
+                        owned_ = method in ('visit_string', 'visit_byte_buf')
+
+                        def forward_(it, ctx_, a, s_, name_=name_, tenv_=tenv_, owned_=owned_):
+                            a = list(a)
+                            if owned_ and not isinstance(a[1], Ptr):
+                                a[1] = s_.ref(a[1])
+                            yield from it.invoke(name_, a, s_, tenv_, ctx_.fr.depth + 1)
+                        return forward_
             raise Unsupported(f'local type impl {ty_str(head)}::{method}: {cands}')
         matches = []
         for info in self.p.impls:
